@@ -17,7 +17,6 @@ H = {
  "C18d_2": "missed at first (the slice sits in a new Context method and reaches the circuit through ctx.circ); R10.slice recognises the circuit vector by its element type",
 }
 D = {
- "C16d_2": "recognition limit, not a finding: the decisive comparison is written inside the closure of Option::filter (`Some(hash).filter(|h| request.program_hash != *h)`); closures are not spliced into std adaptors, R9.compat cannot locate the comparison and fails closed (DESIGN 12.5)",
  "C18d_2": "recognition limit, not a finding: the evaluator range test is written inside the closure of Option::filter (`get(p_own).filter(|_| p_eval < p_max)`) and the remaining checks as a match on a tuple of flags with map_or; R10.field cannot locate the tests and fails closed (DESIGN 12.5)",
 }
 for sid, h in H.items():
